@@ -24,7 +24,7 @@ CLAIMS = {
             "text": "Coq theorems for EVERY repetition count r: soundness (invariant preserved by every single cell write), never looser than the superadditive bounds, monotone in r, lower bounds antitone along inclusion, upper-bound caps; all for arbitrary stale tables. Correspondence of compute_bounds_superadditive_monotone_approx_cached with the model for r in 0..10, 100, 1000 and oracles on the implementation.",
             "technique": "Coq proof (loop invariant over rounds and cells) + correspondence"},
     "C07": {"design_ref": "DESIGN.md 7/C07",
-            "text": "Coq theorem: K <= K' implies pointwise tighter intervals for both superadditive computers (all n, any tables holding the knowledge). Gap-function monotonicity (l1, l-inf, squared l2, binomially weighted gap) is proved in the Norms/Exploit development (C05 slice) and cited when merged; the SAM variant and the four registered gap functions are checked on every edge of the knowledge lattice (n<=3 quick, n<=4 thorough) on the implementation and against the model.",
+            "text": "Coq theorem: K <= K' implies pointwise tighter intervals for both superadditive computers (all n, any tables holding the knowledge). Gap-function monotonicity (l1, l-inf, squared l2, binomially weighted gap) is proved in the Norms/Exploit development (C05 slice) and cited when merged; the SAM variant and the four registered gap functions are checked on every edge of the knowledge lattice (n<=3 quick, n<=4 thorough) on the implementation and against the model. Added: all gap functions are invariant under adding an additive game (ShiftProofs); same-object reveal chains incl. n = 9, 10 for the memoised computers in the correspondence.",
             "technique": "Coq proof (induction on coalition size over two solutions) + lattice-edge correspondence + gap oracles"},
     "C08": {"design_ref": "DESIGN.md 7/C08",
             "text": "Coq theorems for EVERY computer of the registry (reference, cached, SAM approximation with any repetition count): the result is a function of the known rows only (stale unknown rows irrelevant, any game class), recomputation idempotent, reveal+un-reveal undone exactly, histories ending in the same knowledge confluent, computed states fresh. Correspondence on histories + implementation-side oracles (route independence, idempotence, undo, stale rows) for every registered computer.",
@@ -36,28 +36,28 @@ CLAIMS = {
             "text": "Coq theorems: invariant of the environment state machine by induction over ANY sequence of reset/step/unstep calls (known = initially known + chosen since the last reset, known rows carry the hidden values, table fresh, step counter), mask / observation / done / info / reset specifications, step+unstep restores the table exactly. Lock-step correspondence of ICG_Gym with the model after every call (all n=3 sequences, sampled n=4,5; every computer, gap function, budget) + an implementation-side oracle (knowledge, mask, observation, reward = -gap of fresh bounds <= 0, done predicate).",
             "technique": "Coq invariant proof over operation traces + lock-step correspondence"},
     "C13": {"design_ref": "DESIGN.md 7/C13",
-            "text": "Coq theorems: greedy / worst-greedy return a valid action of maximal / minimal tried reward with ties to the lowest index (also as a function of the reward vector, the form compared in lock-step); largest returns a valid action of maximal coalition size, lowest index; trying an action is a step which unstep undoes exactly. Lock-step correspondence for every registered solver at every reachable n=3 state and sampled n=4,5 states with asymmetric games; expected-greedy search modelled and proved (each choice minimises the mean gap over all one-coalition extensions, no repeats, rows = gaps of prefixes, curve non-increasing for class games, never below a lower bound of all same-size sets, optimal for one reveal) and compared with get_greedy_rewards on exact gaps, plus the exhaustive-optimum oracle with 1,2,4 processes.",
+            "text": "Coq theorems: greedy / worst-greedy return a valid action of maximal / minimal tried reward with ties to the lowest index (also as a function of the reward vector, the form compared in lock-step); largest returns a valid action of maximal coalition size, lowest index; trying an action is a step which unstep undoes exactly. Lock-step correspondence for every registered solver at every reachable n=3 state and sampled n=4,5 states with asymmetric games; expected-greedy search modelled and proved (each choice minimises the mean gap over all one-coalition extensions, no repeats, rows = gaps of prefixes, curve non-increasing for class games, never below a lower bound of all same-size sets, optimal for one reveal) and compared with get_greedy_rewards on exact gaps, plus the exhaustive-optimum oracle with 1,2,4 processes. Added: expected-greedy is scale-free (argmin, chosen sequence, curve x c); per-step choice-rule oracle and rescaled games in the correspondence.",
             "technique": "Coq proof of first-argmax/argmin selection + lock-step correspondence"},
     "C16": {"design_ref": "DESIGN.md 7/C16",
             "text": "Coq theorems: the linear mask allows size k iff an unknown explorable coalition of size k exists; candidates = exactly those coalitions, non-empty when allowed; a linear step IS the underlying step of a candidate; the observation is the per-size sum of the inner observation, of length n. Lock-step correspondence with ICG_Gym_Linear (the sampled coalition read from info and passed to the model).",
             "technique": "Coq proof over the aggregation (bincount) model + lock-step correspondence"},
     "C15": {"design_ref": "DESIGN.md 7/C15 + DESIGN_NOTES/C15.md",
-            "text": "Coq theorems over exact rationals (which cover every float input): closed formula of the sequential singleton subtraction (all n), range [0,1] with singletons 0 and grand 1 (or identically 0 iff additive), superadditivity preserved, denormalise o normalise = id, graph and tabulated forms commute; refutation witnesses showing the hypotheses cannot be dropped. Correspondence: exact stream bit-for-bit, float stream over every generator family and nearly additive games, graph stream, gym observation inside its Box; oracle = the property on the implementation's output.",
+            "text": "Coq theorems over exact rationals (which cover every float input): closed formula of the sequential singleton subtraction (all n), range [0,1] with singletons 0 and grand 1 (or identically 0 iff additive), superadditivity preserved, denormalise o normalise = id, graph and tabulated forms commute; refutation witnesses showing the hypotheses cannot be dropped. Correspondence: exact stream bit-for-bit, float stream over every generator family and nearly additive games, graph stream, gym observation inside its Box; oracle = the property on the implementation's output. Added: the superadditive computers are covariant under adding an additive game and under positive affine changes, hence bounds and gaps of the normalised knowledge are the normalised bounds and the gaps divided by the surplus (refuted for the SAM approximation by a 3-player witness).",
             "technique": "Coq proof (loop invariant over the player loop, ordered-field reasoning) + correspondence + range oracle"},
     "C11": {"design_ref": "DESIGN.md 7/C11",
-            "text": "Coq theorems: the enumeration is every sub-list of the unknown coalitions of length <= k exactly once by increasing size (itertools.combinations model proved in CombsProofs); the reported gap depends only on the set starting knowledge + sequence, is the gap of the game in which exactly that set is known, ignores the state left in the shared game object, and any chunking of the task list over workers equals the sequential map; meta-game value is the same quantity; best-states is a per-size first-argmin of the mean; per-game value never increases with one more coalition (class games) and the best-states curve is non-increasing. Correspondence with 1..16 worker processes (stale rows planted in the pickled object), independent per-set gap oracle, per-size optimum oracle. Partial: Pool pickling/chunking is modelled (sr_starmap), not verified.",
+            "text": "Coq theorems: the enumeration is every sub-list of the unknown coalitions of length <= k exactly once by increasing size (itertools.combinations model proved in CombsProofs); the reported gap depends only on the set starting knowledge + sequence, is the gap of the game in which exactly that set is known, ignores the state left in the shared game object, and any chunking of the task list over workers equals the sequential map; meta-game value is the same quantity; best-states is a per-size first-argmin of the mean; per-game value never increases with one more coalition (class games) and the best-states curve is non-increasing. Correspondence with 1..16 worker processes (stale rows planted in the pickled object), independent per-set gap oracle, per-size optimum oracle. Partial: Pool pickling/chunking is modelled (sr_starmap), not verified. Added: scale-freeness theorems (every computer incl. SAM for all r, all gap functions, sr_value and best-states are positively homogeneous: same reported sets, curves multiplied by c); best-states runs on games scaled by 2^-24, 2^-30, 2^12 with tolerances relative to the games' magnitude.",
             "technique": "Coq proof (enumeration spec, function-of-knowledge, chunking lemma, argmin fold invariant) + multi-process correspondence"},
     "C05": {"design_ref": "DESIGN.md 7/C05 + DESIGN_NOTES/C05.md",
             "text": "Coq theorems for ALL n: exploitability = binomially weighted gap (sum exchange; general form with no hypothesis), = summed per-player maximal Shapley value minus v(N); non-negative when lower <= upper; zero iff all intervals degenerate; per-player domination for every completion inside the box; max-gain game inside the box. Correspondence of compute_exploitability and the three norms on objects with bounds set directly (one size widened at a time, swaps visible), n = 2..8, plus Fraction oracle of the right-hand side.",
             "technique": "Coq proof (sum exchange over player/coalition pairs) + correspondence"},
     "C06": {"design_ref": "DESIGN.md 7/C06 + DESIGN_NOTES/C06.md",
-            "text": "Coq theorems for ALL n and all games: Shapley value = average marginal contribution over all n! orderings (counting orderings with given predecessors), efficiency, null player, linearity, relabelling by any permutation, both entry points equal; the n <= 7 reflection proof kept as an independent second proof. Correspondence for n = 1..10 on one-hot / unanimity / random games; brute-force ordering oracle n <= 7.",
+            "text": "Coq theorems for ALL n and all games: Shapley value = average marginal contribution over all n! orderings (counting orderings with given predecessors), efficiency, null player, linearity, relabelling by any permutation, both entry points equal; the n <= 7 reflection proof kept as an independent second proof. Correspondence for n = 1..10 on one-hot / unanimity / random games; brute-force ordering oracle n <= 7. Also proved for all n: null-player-out (deleting a null last player changes nobody's value) and the carrier theorem (a game carried by any k players has the k-player game's values = average over the k! orderings of the carrier, zeros elsewhere); the check evaluates carrier games for n = 11..18 (20 thorough) against it.",
             "technique": "Coq proof (counting bijection + reflection on linear forms) + correspondence"},
     "C10": {"design_ref": "DESIGN.md 7/C10 + DESIGN_NOTES/C10.md",
             "text": "Coq theorems per generator family for all n and all parameters/draws in the supports: factory, cheerleader, graph, additive, XOS, XS, OXS (min-convolution invariant, loop-faithful _apply_or), K-budget, coverage are superadditive (and monotone where assumed); registry theorem over the GENERATED key list (every key maps to a modelled family with admissible static parameters; 'convex' external). Correspondence with recorded draws for every registry key x n x seeds; oracle on the implementation (runs, shape, dtype, v(empty)=0, class, seed determinism).",
             "technique": "Coq proof per construction + registry regenerated from /repo on every run + recorded-draw correspondence"},
     "C12": {"design_ref": "DESIGN.md 7/C12",
-            "text": "Coq theorems: eval_one records the true trajectory (row 0 = gap after the reset with this repetition's hidden game, row t+1 = gap after the t-th chosen coalition in that game, actions = ids revealed, unknown before / known after); with one child stream per environment the hidden games do not depend on sequential/parallel execution nor on the chunking and distinct repetitions read distinct streams; with one shared stream they do (refutation witness 12 repetitions / 2 processes, the defect repaired in /repo a2c763f). Correspondence: replay of recorded actions, model vs implementation for the 'largest' policy, fingerprinted hidden games mapped to draw indices for 1..16 processes. PARTIAL: pickle / multiprocessing.Pool semantics are modelled and validated, not verified. One open known finding (RandomSolver's own random.Random is replayed per chunk).",
+            "text": "Coq theorems: eval_one records the true trajectory (row 0 = gap after the reset with this repetition's hidden game, row t+1 = gap after the t-th chosen coalition in that game, actions = ids revealed, unknown before / known after); with one child stream per environment the hidden games do not depend on sequential/parallel execution nor on the chunking and distinct repetitions read distinct streams; with one shared stream they do (refutation witness 12 repetitions / 2 processes, the defect repaired in /repo a2c763f). Correspondence: replay of recorded actions, model vs implementation for the 'largest' policy, fingerprinted hidden games mapped to draw indices for 1..16 processes. PARTIAL: pickle / multiprocessing.Pool semantics are modelled and validated, not verified. One open known finding (RandomSolver's own random.Random is replayed per chunk). Added: model of the solver's own random stream under pool chunking (sequentially disjoint stretches, replay by every chunk, refutation on the pool's real chunking = the open finding); independence oracle on the captured hidden games.",
             "technique": "Coq proof over the recording loop and a small stream-wiring model + multi-process correspondence"},
     "C14": {"design_ref": "DESIGN.md 7/C14 + DESIGN_NOTES/C14.md",
             "text": "Coq theorems: ranking of coalition sets is a bijection ordered by size for every (nc, limit >= 1); id->rank inverse and total construction for the by-id table, refutation for the by-count table; invariant over ALL histories of non-negative iterations (plain and plus): every current strategy is a distribution supported on unused viable coalitions, regret added is orthogonal to the strategy, plus keeps regret non-negative, no NaN with the clamped limit (refutation for the unclamped one); average strategy distribution; save/load identity. One-step lock-step correspondence (float32 state -> Q) + invariant oracle on the implementation.",
@@ -69,7 +69,7 @@ CLAIMS = {
             "text": "Coq theorems: the store is insert-if-absent - once a name is present its entry never changes under ANY further saves (first write wins), saving an existing name is a no-op, saving a new name adds it and changes nothing else; nested-list <-> array round trip for every shape with all dimensions >= 1 (NaN included; refutation for a zero dimension); entry round trip. Correspondence on save histories (repeated names, NaN padding, extreme values, non-JSON metadata) after every save; solve / greedy / best_states commands run with the computation captured - the file must hold exactly that. PARTIAL: CPython's json text codec and float repr are trusted (exercised, not modelled).",
             "technique": "Coq proof over save histories + save/load history correspondence"},
     "C20": {"design_ref": "DESIGN.md 7/C20 + DESIGN_NOTES/C20.md",
-            "text": "Coq theorems over an explicit file-operation model (kernel-visible content + user-space buffers; death, interrupt, partial write): for the temp-file + replace procedure the results file after a crash at ANY operation index of ANY save, any payload chunking, any previous content, is exactly the old or the complete new file, and no earlier run is ever lost over sessions with any number of interrupted saves; the in-place procedure is refuted (witness; k = 1 leaves the empty file). Correspondence: the operation trace of save_json is recorded and the scheme identified; fault injection at every operation (exception, os._exit in a fork, half-written raw write) and the bytes left are compared with the model; oracle: file parses and contains every earlier run. PARTIAL: POSIX rename atomicity and CPython io buffering are assumptions of the model, stated in C20.v.",
+            "text": "Coq theorems over an explicit file-operation model (kernel-visible content + user-space buffers; death, interrupt, partial write): for the temp-file + replace procedure the results file after a crash at ANY operation index of ANY save, any payload chunking, any previous content, is exactly the old or the complete new file, and no earlier run is ever lost over sessions with any number of interrupted saves; the in-place procedure is refuted (witness; k = 1 leaves the empty file). Correspondence: the operation trace of save_json is recorded and the scheme identified; fault injection at every operation (exception, os._exit in a fork, half-written raw write) and the bytes left are compared with the model; oracle: file parses and contains every earlier run. PARTIAL: POSIX rename atomicity and CPython io buffering are assumptions of the model, stated in C20.v. Added: frame theorem for the public save() (arbitrary operations of the other savers on other paths/handles before, after or interleaved with the json save keep data.json old-or-new at every crash point and mode), refutation of pre-creating the results file in place; the public save() (fresh and existing model directory) is fault-injected at every file operation.",
             "technique": "Coq proof over crash points of an operation-trace model + fault-injection correspondence"},
 }
 
